@@ -50,56 +50,102 @@ def level_valid(R, prog):
     counter = [d for d, dj in enumerate(f.decls) if dj['kind'] == 'local' and dj['type'] == 'int']
     size_names = K.local_names_init_by(f, lambda e, i: e['k'] == 'call' and strip_targs(e.get('fn') or '').endswith('::size'))
 
-    def ev_int(x, cls):
-        x = f.skip(x)
-        e = f.x(x)
-        if e is None:
-            raise Unknown('null')
-        c = f.const(x)
-        if c is not None and e['k'] in ('lit', 'enumconst', 'unop', 'cast'):
-            return c
-        if e['k'] == 'ref':
-            if e['name'] in size_names:
+    def make_eval(f, comp_names, size_names, counter):
+        """numeric/boolean evaluation of expressions of function f for one component class"""
+        def ev_int(x, cls, level=None):
+            x = f.skip(x)
+            e = f.x(x)
+            if e is None:
+                raise Unknown('null')
+            c = f.const(x)
+            if c is not None and e['k'] in ('lit', 'enumconst', 'unop', 'cast'):
+                return c
+            if e['k'] == 'ref':
+                if e['name'] in size_names:
+                    return cls['size']
+                vi = f.value_init(e['decl']) if f.decls[e['decl']]['kind'] == 'local' else None
+                if vi is not None and vi >= 0:
+                    ie = f.x(f.skip(vi))
+                    if ie is not None and ie['k'] == 'call' and strip_targs(ie.get('fn') or '').endswith('::size'):
+                        return cls['size']
+                    if ie is not None and ie['k'] == 'call' and ie.get('inrepo'):
+                        return ev_int(vi, cls, level)
+                    return 1 if truth(vi, cls, [0]) else 0
+                raise Unknown('variable %s' % e['name'])
+            if e['k'] == 'call' and strip_targs(e.get('fn') or '').endswith('::size'):
                 return cls['size']
-            vi = f.value_init(e['decl']) if f.decls[e['decl']]['kind'] == 'local' else None
-            if vi is not None and vi >= 0:
-                return 1 if truth(vi, cls, [0]) else 0
-            raise Unknown('variable %s' % e['name'])
-        if e['k'] == 'call' and strip_targs(e.get('fn') or '').endswith('::size'):
-            return cls['size']
-        if e['k'] == 'call' and e.get('op') == '[]':
-            i = ev_int(e['args'][0], cls)
-            ch = cls.get('c%d' % i)
-            if i >= cls['size']:
-                raise Unknown('name[%d] read beyond a component of length %d' % (i, cls['size']))
-            return ord(ch)
-        if e['k'] == 'index':
-            i = ev_int(e['idx'], cls)
-            if i >= cls['size']:
-                raise Unknown('name[%d] read beyond a component of length %d' % (i, cls['size']))
-            return ord(cls.get('c%d' % i))
-        raise Unknown('expression %s' % f.show(x))
+            if e['k'] == 'call' and e.get('op') == '[]':
+                i = ev_int(e['args'][0], cls)
+                if i >= cls['size']:
+                    raise Unknown('name[%d] read beyond a component of length %d' % (i, cls['size']))
+                return ord(cls.get('c%d' % i))
+            if e['k'] == 'index':
+                i = ev_int(e['idx'], cls)
+                if i >= cls['size']:
+                    raise Unknown('name[%d] read beyond a component of length %d' % (i, cls['size']))
+                return ord(cls.get('c%d' % i))
+            if e['k'] == 'call' and e.get('inrepo') and len(e.get('args', [])) == 1:
+                # a helper predicate over the component (e.g. is_dots(name)): interpret it for this class
+                cands = prog.by_nname.get(strip_targs(e['fn']), [])
+                if cands:
+                    vals = interp_returns(cands[0], cls)
+                    if len(vals) == 1:
+                        return list(vals)[0]
+                    raise Unknown('helper %s returns %s for this class' % (e['fn'], sorted(vals)))
+            raise Unknown('expression %s' % f.show(x))
 
-    def truth(x, cls, level):
-        x = f.skip(x)
-        e = f.x(x)
-        if e['k'] == 'unop' and e['op'] == '!':
-            return not truth(e['sub'], cls, level)
-        if e['k'] == 'binop' and e['op'] == '&&':
-            return truth(e['l'], cls, level) and truth(e['r'], cls, level)
-        if e['k'] == 'binop' and e['op'] == '||':
-            return truth(e['l'], cls, level) or truth(e['r'], cls, level)
-        if e['k'] == 'binop' and e['op'] in ('==', '!=', '<', '>', '<=', '>='):
-            def val(y):
-                ye = f.x(f.skip(y))
-                if ye['k'] == 'unop' and ye['op'] in ('--', '++') and (f.x(f.skip(ye['sub'])) or {}).get('decl') in counter:
-                    return level[0]     # already applied at the inc/dec event (prefix form)
-                if ye['k'] == 'ref' and ye['decl'] in counter:
-                    return level[0]
-                return ev_int(y, cls)
-            a, b = val(e['l']), val(e['r'])
-            return {'==': a == b, '!=': a != b, '<': a < b, '>': a > b, '<=': a <= b, '>=': a >= b}[e['op']]
-        return ev_int(x, cls) != 0
+        def truth(x, cls, level):
+            x = f.skip(x)
+            e = f.x(x)
+            if e['k'] == 'unop' and e['op'] == '!':
+                return not truth(e['sub'], cls, level)
+            if e['k'] == 'binop' and e['op'] == '&&':
+                return truth(e['l'], cls, level) and truth(e['r'], cls, level)
+            if e['k'] == 'binop' and e['op'] == '||':
+                return truth(e['l'], cls, level) or truth(e['r'], cls, level)
+            if e['k'] == 'binop' and e['op'] in ('==', '!=', '<', '>', '<=', '>='):
+                def val(y):
+                    ye = f.x(f.skip(y))
+                    if ye['k'] == 'unop' and ye['op'] in ('--', '++') and (f.x(f.skip(ye['sub'])) or {}).get('decl') in counter:
+                        return level[0]     # already applied at the inc/dec event (prefix form)
+                    if ye['k'] == 'ref' and ye['decl'] in counter:
+                        return level[0]
+                    return ev_int(y, cls, level)
+                a, b = val(e['l']), val(e['r'])
+                return {'==': a == b, '!=': a != b, '<': a < b, '>': a > b, '<=': a <= b, '>=': a >= b}[e['op']]
+            return ev_int(x, cls, level) != 0
+        return ev_int, truth
+
+    def interp_returns(g, cls, depth=0):
+        """set of constants the helper g may return for a component of class cls"""
+        if depth > 3:
+            raise Unknown('helper recursion')
+        g.aliases()
+        GG = Graph(prog, g)
+        sz = K.local_names_init_by(g, lambda e, i: e['k'] == 'call' and strip_targs(e.get('fn') or '').endswith('::size'))
+        evi, tr = make_eval(g, None, sz, [])
+        out = set()
+        stack = [GG.entry]
+        seen = set()
+        while stack:
+            nid = stack.pop()
+            if nid in seen:
+                continue
+            seen.add(nid)
+            node = GG.nodes[nid]
+            done = False
+            for ev in node.evs:
+                if ev.kind == 'return':
+                    out.add(evi(ev.e['sub'], cls))
+                    done = True
+            if done:
+                continue
+            for s2, c in node.succs:
+                if c is None or tr(c[2], cls, [0]) == c[3]:
+                    stack.append(s2)
+        return out
+
+    ev_int, truth = make_eval(f, None, size_names, counter)
 
     for cname, cls, want in CLASSES:
         key = '%s.K12:photon::fs::Path::level_valid:%s' % (P, cname)
